@@ -1174,6 +1174,46 @@ pub fn run<'tcx>(tcx: TyCtxt<'tcx>) {
             }
         }
     }
+    // Hash::hash of the k-mer types and the containers with the standard library's DefaultHasher (the hasher type is taken from a body of
+    // the crate that creates one — no other way to name it from here)
+    {
+        let mut hasher_ty: Option<Ty<'tcx>> = None;
+        for ldid in tcx.hir_body_owners() {
+            let did = ldid.to_def_id();
+            if !matches!(tcx.def_kind(did), DefKind::Fn | DefKind::AssocFn) || !tcx.is_mir_available(did) {
+                continue;
+            }
+            let body = tcx.optimized_mir(did);
+            for bb in body.basic_blocks.iter() {
+                if let TerminatorKind::Call { func, destination, .. } = &bb.terminator().kind {
+                    if let Some((cd, _)) = func.const_fn_def() {
+                        if tcx.def_path_str(cd).ends_with("DefaultHasher::new") {
+                            hasher_ty = Some(destination.ty(&body.local_decls, tcx).ty);
+                        }
+                    }
+                }
+            }
+        }
+        if let (Some(hty), Some(t_hash)) = (hasher_ty, tcx.get_diagnostic_item(rustc_span::sym::Hash)) {
+            let hm = tcx.associated_items(t_hash).in_definition_order().find(|it| it.is_fn() && it.name().as_str() == "hash").map(|it| it.def_id);
+            if let Some(hm) = hm {
+                let mut tys: Vec<Ty<'tcx>> = ktypes.iter().map(|(t, _)| *t).collect();
+                tys.extend(containers.iter().copied());
+                for t in tys.iter() {
+                    let args = tcx.mk_args(&[GenericArg::from(*t), GenericArg::from(hty)]);
+                    let r = std::panic::catch_unwind(std::panic::AssertUnwindSafe(|| {
+                        Instance::try_resolve(tcx, env_mono, hm, args).ok().flatten()
+                    }));
+                    if let Ok(Some(inst)) = r {
+                        roots.push((
+                            inst,
+                            J::obj().with("trait", J::s("Hash")).with("method", J::s("hash")).with("self", J::s(tystr(*t))),
+                        ));
+                    }
+                }
+            }
+        }
+    }
     // base iteration over the containers: `<&C as IntoIterator>::into_iter` and, for the (crate-local) iterator type it returns, every
     // method of its `impl Iterator` (next and any overridden provided method)
     if let (Some(t_into), Some(t_iter)) =
